@@ -31,6 +31,10 @@ fn v_leaves() -> Vec<VOperand> {
         VOperand::QStrings(vec![vec![ch('a'), ch('b')], vec![ch('a')], vec![]]),
         VOperand::QStrings(vec![vec![ch('b')]]),
         VOperand::QStrings(vec![vec![ch('k'), ch('a')], vec![ch('a'), ch('b')]]),
+        // strings spelt in the other case (under iv every operand is folded, whichever side it is on)
+        VOperand::QStrings(vec![vec![ch('A'), ch('B')]]),
+        VOperand::QStrings(vec![vec![ch('K'), ch('a')], vec![ch('a'), ch('B')], vec![ch('B')]]),
+        VOperand::Char(ch('A')),
         VOperand::Prop(false, "Lu".into()),
         VOperand::Prop(true, "Lu".into()),
         // multi-interval operands and ranges that straddle them (interval arithmetic of -- and &&)
@@ -123,7 +127,35 @@ pub fn legacy_classes() -> Vec<Node> {
 }
 
 pub fn universe() -> Vec<u32> {
-    vec![ch('a'), ch('b'), ch('d'), ch('k'), ch('K'), 0x212A, ch('s'), 0x17F, ch('&'), ch('-'), ch('1'), ch('_'), ch('x'), 8, ch('^'), ch('A'), ch(' ')]
+    vec![ch('a'), ch('b'), ch('d'), ch('k'), ch('K'), 0x212A, ch('s'), 0x17F, ch('&'), ch('-'), ch('1'), ch('_'), ch('x'), 8, ch('^'), ch('A'), ch(' '), ch('B')]
+}
+
+/// (C) classes whose members sit on the UTF-8 / UTF-16 encoding-length boundaries: every class of one or two
+/// items (single code points and ranges between neighbouring boundary points), plain and negated.
+pub fn boundary_classes() -> (Vec<Node>, Vec<u32>) {
+    let pts: Vec<u32> = vec![0x0, 0x7C, 0x7D, 0x7F, 0x80, 0x81, 0x7FF, 0x800, 0xFFFF, 0x10000, 0x10FFFF];
+    let mut items: Vec<ClassItem> = pts.iter().map(|&c| ClassItem::Single(c)).collect();
+    for (i, &a) in pts.iter().enumerate() {
+        for &b in &pts[i + 1..] {
+            items.push(ClassItem::Range(a, b));
+        }
+    }
+    let mut out = Vec::new();
+    for neg in [false, true] {
+        for (i, a) in items.iter().enumerate() {
+            out.push(Node::Class { negated: neg, items: vec![a.clone()] });
+            for b in &items[i + 1..] {
+                out.push(Node::Class { negated: neg, items: vec![a.clone(), b.clone()] });
+            }
+        }
+    }
+    // small sets that stay below the 4-member literal-set limit and 5-member sets just above it
+    for set in [vec![0x7F, 0x80], vec![0x7E, 0x7F, 0x80], vec![0x0, 0x7F, 0x80, 0x7A], vec![0x7C, 0x7D, 0x7E, 0x7F, 0x80], vec![0x80, 0x7FF], vec![0x7FF, 0x800, 0xFFFF, 0x10000]] {
+        out.push(Node::Class { negated: false, items: set.iter().map(|&c| ClassItem::Single(c)).collect() });
+        out.push(Node::Class { negated: true, items: set.iter().map(|&c| ClassItem::Single(c)).collect() });
+    }
+    let universe = vec![0x0, 0x7A, 0x7B, 0x7C, 0x7D, 0x7E, 0x7F, 0x80, 0x81, 0xC2, 0x7FE, 0x7FF, 0x800, 0x801, 0xFFFE, 0xFFFF, 0x10000, 0x10001, 0x10FFFE, 0x10FFFF];
+    (out, universe)
 }
 
 fn wrap(class: Node) -> Vec<Node> {
@@ -167,6 +199,39 @@ pub fn c12(run: &mut Run) -> Stats {
             st
         })
         .reduce(Stats::default, Stats::merge);
+    // (C) encoding-boundary classes
+    let (bcs, buni) = boundary_classes();
+    let bhays: Vec<Hay> = enumerate::all_hays(&buni, 1).into_iter().chain([vec![0x61, 0x80], vec![0x80, 0x61], vec![0x7FF, 0x10000], vec![0x10000, 0x7F]].into_iter().map(Hay::new)).collect();
+    let mut bjobs: Vec<(Node, Flags)> = Vec::new();
+    for c in &bcs {
+        for n in wrap(c.clone()) {
+            let astral = match c {
+                Node::Class { items, .. } => items.iter().any(|i| match i {
+                    ClassItem::Single(a) => *a > 0xFFFF,
+                    ClassItem::Range(a, b) => *a > 0xFFFF || *b > 0xFFFF,
+                    _ => false,
+                }),
+                _ => false,
+            };
+            for f in ["", "i", "u", "iu", "v"] {
+                let fl = Flags::parse(f);
+                // without u / v a supplementary character in the pattern source is two code units in ES;
+                // the property's set reading applies to it only under u / v
+                if astral && !(fl.u || fl.v) {
+                    continue;
+                }
+                bjobs.push((n.clone(), fl));
+            }
+        }
+    }
+    let n_c = bjobs.len();
+    let st_c = bjobs
+        .par_iter()
+        .fold(Stats::default, |mut st, (ast, fl)| {
+            sweep::eval_pattern(&cfg, ast, *fl, &bhays, &known, &mut st);
+            st
+        })
+        .reduce(Stats::default, Stats::merge);
     // (B) every spelling: all strings over the class syntax alphabet that the reference parser accepts
     let alpha: Vec<u32> = "[]^&-\\q{}|abdwWk!".chars().map(|c| c as u32).collect();
     let maxlen = if thorough { 7 } else { 6 };
@@ -201,14 +266,16 @@ pub fn c12(run: &mut Run) -> Stats {
         })
         .reduce(Stats::default, Stats::merge);
     run.rule = format!(
-        "(A) {} class expressions: v-mode operands {{a b & - k U+212A U+017F \\b a-c \\d \\w \\W \\q{{ab|a|}} \\q{{b}} \\q{{ka|ab}} \\p{{Lu}} \\P{{Lu}}}} combined by union / && / -- with optional ^, nested to depth {}, under v and iv; legacy brackets of <= 2 items with Annex B forms under \"\", i, u, iu; each as /^E$/ and /E/ against every string of length <= 2 over a 17-character universe, every start; (B) every string '[' + s, |s| <= {} over the alphabet {{[ ] ^ & - \\ q {{ }} | a b d w W k !}}, that the reference parser reads as one class, under v, iv, \"\", i, u (all spellings of the same set); compared with the reference semantics (range and match); non-trivial = a match exists",
+        "(A) {} class expressions: v-mode operands {{a b & - k U+212A U+017F \\b a-c \\d \\w \\W \\q{{ab|a|}} \\q{{b}} \\q{{ka|ab}} \\q{{AB}} \\q{{Ka|aB|B}} A \\p{{Lu}} \\P{{Lu}}}} combined by union / && / -- with optional ^, nested to depth {}, under v and iv; legacy brackets of <= 2 items with Annex B forms under \"\", i, u, iu; each as /^E$/ and /E/ against every string of length <= 2 over an 18-character universe, every start; (B) every string '[' + s, |s| <= {} over the alphabet {{[ ] ^ & - \\ q {{ }} | a b d w W k !}}, that the reference parser reads as one class, under v, iv, \"\", i, u (all spellings of the same set); (C) {} classes of one or two items (singles and ranges) over the encoding-length boundary points {{0 7C 7D 7F 80 81 7FF 800 FFFF 10000 10FFFF}} plus small literal sets around U+0080, plain and negated, under \"\", i, u, iu, v, against every haystack of length <= 1 over 20 boundary neighbours; compared with the reference semantics (range and match); non-trivial = a match exists",
         n_a,
         if thorough { 2 } else { 1 },
-        maxlen
+        maxlen,
+        n_c
     );
     run.assumptions = vec!["reference semantics: CompileToCharSet / CharacterSetMatcher / ClassStrings of ES2025 as transcribed in mc/src/refmatch.rs (self-checked against V8 for v by tools/v8_crosscheck.js)".into()];
     run.extra.push(("class_expressions".into(), J::u(n_a as u64)));
-    st_a.merge(st_b)
+    run.extra.push(("boundary_class_patterns".into(), J::u(n_c as u64)));
+    st_a.merge(st_b).merge(st_c)
 }
 
 /// Like sweep::eval_pattern, but the pattern text is the given spelling rather than the printed AST.
